@@ -306,7 +306,7 @@ fn main() {
     let mut sum = Summary::default();
     sum.rule = "histories of validate_sequence / batch_update / cleanup on 1-3 peers with boundary-directed sequence numbers (last, last+1, last+2, 0, u64::MAX) and timestamps (window edges +-1 s); reload-after-sync, 16 concurrent identical submissions, concurrent per-peer scripts. Non-trivial = contains at least one accepted and one rejected submission; distinct = different (ops, verdicts) after erasing wall-clock values".into();
     let mut w = CaseWriter::new(&args.out, "cases_c12", HEADER, "case3", "check_case", "prop_case", 100);
-    let target = if args.thorough() { 6000 } else { 400 };
+    let target = if args.thorough() { 3000 } else { 400 };
     let mut id = 0u64;
     let mut seen = std::collections::HashSet::new();
     // replay: a single stored case is re-run through the model only (the implementation part is re-generated from the seed)
